@@ -106,6 +106,15 @@ func optflow(c *Ctx, r *Report, rule string, pkgs []string) {
 		used := map[*ssa.Parameter]bool{}
 		for _, s := range sinks {
 			srcs := Sources(s.val)
+			// a defensive copy: own := make([]Option, len(opts)); copy(own, opts) hands on all of opts — a copy into a
+			// slice of another length (make([]Option, 0, len(opts))) hands on nothing, or not all
+			for _, src := range append([]ssa.Value{}, srcs...) {
+				if ms, isMS := src.(*ssa.MakeSlice); isMS {
+					for _, from := range wholeCopiesInto(ms) {
+						srcs = append(srcs, Sources(from)...)
+					}
+				}
+			}
 			good := ""
 			for _, src := range srcs {
 				if d, ok := optOrigin(src); ok {
@@ -586,4 +595,24 @@ func observersReadOnlyRule(c *Ctx, r *Report) {
 			r.OK("R19h", c.FnName(fn), "reads only", c.Pos(fn.Pos()), fmt.Sprintf("%d functions reachable, Collector.Add is not among them", len(reach)))
 		}
 	}
+}
+
+// wholeCopiesInto: the slices that are copied completely into ms by the builtin copy — ms was made with the
+// length of that very slice (make(T, len(src)); copy(ms, src)).
+func wholeCopiesInto(ms *ssa.MakeSlice) []ssa.Value {
+	var out []ssa.Value
+	if ms.Referrers() == nil {
+		return nil
+	}
+	for _, ref := range *ms.Referrers() {
+		call, ok := ref.(*ssa.Call)
+		if !ok || BuiltinName(call) != "copy" || len(call.Call.Args) != 2 || call.Call.Args[0] != ssa.Value(ms) {
+			continue
+		}
+		src := call.Call.Args[1]
+		if ln, isCall := ms.Len.(*ssa.Call); isCall && BuiltinName(ln) == "len" && (ln.Call.Args[0] == src || SameValue(ln.Call.Args[0], src)) {
+			out = append(out, src)
+		}
+	}
+	return out
 }
